@@ -272,7 +272,8 @@ theorem runTask_stream (c : Conn) (t : Task) (h : StreamInv c) : StreamInv (runT
     · exact StreamInv.of_same (same_trans ⟨rfl, rfl, rfl, rfl⟩ (emit_same _ _)) h
   · cases t with
     | sendInLoop d => exact sendInLoop_stream _ _ h
-    | shutdownInLoop _ => exact StreamInv.of_same (shutdownInLoop_same _) h
+    | shutdownInLoop => exact StreamInv.of_same (shutdownInLoop_same _) h
+    | drainShutdownInLoop => exact StreamInv.of_same (shutdownInLoop_same _) h
     | forceCloseInLoop => simp only; split; exact handleClose_stream _ h; exact h
     | connectDestroyed => exact connectDestroyed_stream _ h
     | writeComplete => exact callback_stream _ _ _ h
@@ -344,7 +345,18 @@ theorem step_stream (c : Conn) (i : Input) (h : StreamInv c) : StreamInv (step c
       · exact actForeign_stream _ _ h
       · exact actLoop_stream _ _ h
   | iter a => exact iter_stream _ _ h
-  | _ => exact StreamInv.of_same ⟨rfl, rfl, rfl, rfl⟩ h
+  | ownerDestroy =>
+    simp only [step]; split
+    · exact h
+    · apply maybeDestroy_stream
+      exact StreamInv.of_same (c := connectDestroyed c) ⟨rfl, rfl, rfl, rfl⟩ (connectDestroyed_stream _ h)
+  | hook k a => exact StreamInv.of_same (c := c) ⟨rfl, rfl, rfl, rfl⟩ h
+  | setMark n => exact StreamInv.of_same (c := c) ⟨rfl, rfl, rfl, rfl⟩ h
+  | setRetrieve n => exact StreamInv.of_same (c := c) ⟨rfl, rfl, rfl, rfl⟩ h
+  | peerWrite d => exact StreamInv.of_same (c := c) ⟨rfl, rfl, rfl, rfl⟩ h
+  | envWrite r => exact StreamInv.of_same (c := c) ⟨rfl, rfl, rfl, rfl⟩ h
+  | envRead r => exact StreamInv.of_same (c := c) ⟨rfl, rfl, rfl, rfl⟩ h
+  | advance us => exact StreamInv.of_same (c := c) ⟨rfl, rfl, rfl, rfl⟩ h
 
 theorem run_stream (ins : List Input) (c : Conn) (h : StreamInv c) : StreamInv (run c ins) := by
   induction ins generalizing c with
